@@ -139,4 +139,22 @@ Section FPILP.
       intros [= ->]. apply P. reflexivity.
     - unfold f_block, cfg_block in Hb. destruct (find_block (g_blocks (f_cfg f)) e); inversion Hb. discriminate.
   Qed.
+  (* the backward engine has no budget: it terminates from finite height alone -- with fuel above the
+     bound, fp_backward's out-of-fuel branch (Err EOther) is not taken *)
+  Theorem fp_backward_terminates (rank : S -> nat) h d fuel e b :
+    (forall s, rank s <= h) -> (forall a b, cmp a b = Some Gt -> rank b < rank a) ->
+    (forall l, valid_loc f l = true -> length (pred_f l) <= d) ->
+    1 + d * (length (locations f) * Datatypes.S h) < fuel ->
+    g_exit (f_cfg f) = Some e -> f_block f e = Ok b ->
+    run_nobudget floc S floc_eqb (forward f) (backward f) trans join cmp fuel false [] [block_last_loc b] <> OutOfFuel.
+  Proof.
+    intros R1 R2 D Hf He Hb.
+    set (en := block_last_loc b).
+    assert (Hen : valid_loc f en = true) by (apply last_valid; [assumption|eapply f_block_in; eassumption]).
+    destruct (il_location_hyps_backward en Hen) as (H1 & H2 & H3).
+    apply (fp_terminates_nobudget floc S floc_eqb floc_eqb_spec (forward f) (backward f) trans join cmp pred_f en H2
+             false rank h R1 R2 (fun H => False_ind _ (Bool.diff_false_true H)) (locations f) (locations_nodup f Hinv)
+             (fun l Hl => proj2 (locations_valid f l Hinv) (reach_bwd_valid en l Hen Hl)) d
+             (fun l Hl => D l (reach_bwd_valid en l Hen Hl)) fuel Hf).
+  Qed.
 End FPILP.
